@@ -452,6 +452,53 @@ def input_variation_jobs(rng, tier, fam):
     return jobs
 
 
+def offset_jobs(rng, tier):
+    """Elevation-like data: LARGE OFFSET, SMALL SPREAD (8000 +- 2, int32 20000..20004, -12000, 30000 +- 20).  Squares
+    of such values do not fit float32, so a single-pass variance E[x^2] - E[x]^2 on the float32 window collapses.
+    The job holds the small integer deviations (X) and the offset; the library sees offset + X; the spec judges
+    on the deviations (var / std / range / z-scores are translation invariant, mean / min / max / sum are shifted)."""
+    q = tier == "quick"
+    jobs = []
+    kerns = [k for k in K33_SEL if sum(map(sum, k)) >= 1] + masks(1, 3)[1:] + masks(3, 1)[1:]
+    for rep in range(2 if q else 20):
+        for off in (8000, 20000, -12000, 30000):
+            for dt in ("float32", "float64", "int32"):
+                spread = rng.choice([2, 2, 5, 10, 20])
+                K = rng.choice(kerns) if spread < 20 else rng.choice(masks(1, 3)[1:] + masks(3, 1)[1:])
+                H, W = rng.choice([(4, 4), (3, 5), (5, 4)])
+                devs = list(range(-spread, spread + 1))
+                pn = 0.1 if dt != "int32" and rng.random() < 0.4 else 0.0
+                var = {"offset": off} if dt == "float64" else {"offset": off, "dtype": dt}
+                jobs.append(dict(var, kind="apply", func="focal_stats", via="focal_stats",
+                                 X=rand_raster(rng, H, W, devs, pn), K=K, reds=STATS, tag="offset_spread"))
+                if rep % 2 == 0:
+                    jobs.append(dict(var, kind="apply", func="apply", X=rand_raster(rng, H, W, devs, pn), K=K,
+                                     reds=["var", "mean", "sum", "at_centre"], tag="offset_spread"))
+                for _ in range(20):
+                    Xh = rand_raster(rng, 4, 5, devs, pn / 2)
+                    fin = [v for row in Xh for v in row if v != "nan"]
+                    if len(fin) > 4 and len(fin) * sum(v * v for v in fin) - sum(fin) ** 2 >= len(fin) ** 2:
+                        break                       # global variance >= 1
+                else:
+                    continue
+                jobs.append(dict(var, kind="hot", X=Xh, K=rng.choice(masks(3, 3)[1:]), band=20, tag="offset_spread"))
+                jobs.append(dict(var, kind="mean", X=rand_raster(rng, H, W, devs[:5] if spread > 2 else devs, pn),
+                                 passes=rng.choice([1, 2]), excl=rng.choice([["nan"], [0], [devs[0], "nan"], [1, 2]]),
+                                 tag="offset_spread"))
+    # the same on Dask-backed rasters
+    for rep in range(2 if q else 12):
+        off = [8000, -12000, 30000, 20000][rep % 4]
+        H, W = 4, 5
+        devs = list(range(-3, 4))
+        for ch in chunkings(H, W)[1:]:
+            jobs.append({"kind": "apply", "func": "focal_stats", "via": "focal_stats", "offset": off,
+                         "X": rand_raster(rng, H, W, devs, 0.1), "K": rng.choice(kerns), "reds": ["var", "std", "mean"],
+                         "chunks": ch, "tag": "dask_offset_spread"})
+            jobs.append({"kind": "mean", "offset": off, "X": rand_raster(rng, H, W, devs, 0.1), "passes": 2,
+                         "excl": [0], "chunks": ch, "tag": "dask_offset_spread"})
+    return jobs
+
+
 def chunkings(H, W):
     """single block, 1-cell chunks, an uneven split"""
     out = [[[H], [W]], [[1] * H, [1] * W]]
@@ -567,7 +614,8 @@ def arrange(rng, jobs, nproc=NPROC):
 
 
 # ------------------------------------------------------------------------------------------ verdicts
-FIELDS = {"apply": ["kind", "lazy", "X", "K", "outs"], "mean": ["kind", "lazy", "X", "passes", "excl", "out", "only_excl"],
+FIELDS = {"apply": ["kind", "lazy", "offset", "X", "K", "outs"],
+          "mean": ["kind", "lazy", "offset", "X", "passes", "excl", "out", "only_excl"],
           "conv": ["kind", "lazy", "X", "Wt", "out"], "hot": ["kind", "lazy", "X", "K", "out", "outneg", "band"],
           "ladder": ["kind", "lazy", "zs", "outs"]}
 FUNC = {"mean": "mean", "conv": "convolution_2d", "hot": "hotspots", "ladder": "hotspots"}
@@ -739,6 +787,7 @@ def replay_all(ctx, rng):
             + reducer_jobs(rng, ctx.tier, fam) + mean_jobs(rng, ctx.tier) + conv_jobs(rng, ctx.tier)
             + hot_jobs(rng, ctx.tier) + badkernel_jobs())
     jobs += input_variation_jobs(rng, ctx.tier, fam)
+    jobs += offset_jobs(rng, ctx.tier)
     jobs += dask_jobs(rng, ctx.tier, jobs)
     jobs = arrange(rng, jobs)
     judge_cases(ctx, core.run_jobs("focal_worker", jobs, nproc=NPROC))
